@@ -3,6 +3,7 @@ package main
 // Modifies sets at array and location granularity; frame conditions; loop write sets.
 
 import (
+	"os"
 	"fmt"
 	"go/token"
 	"go/types"
@@ -855,6 +856,9 @@ func (ft *FuncTr) loopModSet(l *LoopInfo, pre *State) *ModSet {
 				continue
 			}
 			am.locs = append(am.locs, loc)
+		}
+		if os.Getenv("GOVC_DEBUG_LOOPMODS") != "" {
+			fmt.Fprintf(os.Stderr, "loopmod %s loop%d %s whole=%v locs=%d\n", shortFuncName(ft.fn), l.Ordinal, n, am.whole, len(am.locs))
 		}
 	}
 	return ms
